@@ -3,6 +3,7 @@ package main
 import (
 	"encoding/json"
 	"fmt"
+	"io"
 	"net/http"
 	"net/http/httptest"
 	"os"
@@ -82,6 +83,7 @@ type httpReq struct {
 	conn   string // name of the temporary connection
 	seen   bool
 	direct bool // a meta status decided the answer
+	method string
 }
 
 type stepRec struct {
@@ -786,41 +788,69 @@ func canonObs(obs []string) []string {
 }
 
 // httpGet issues GET <path> against the API (temporary connection inside the gateway).
-func (w *world) httpGet(path, rawQuery string) {
-	name := fmt.Sprintf("h%d", len(w.https))
-	rid := server.PathToRID(path, rawQuery, "/api/")
-	stim := "http " + name + " GET " + rid
-	if !specValidRID(rid, true) || (len(path) > len("/api/") && path[len(path)-1] == '/') {
-		stim = "http " + name + " GET404"
+func (w *world) httpGet(path, rawQuery string) { w.httpDo("GET", path, rawQuery, "") }
+
+// specValidPart: IsValidRIDPart as the property reads it (non-empty, printable, no dot, no
+// wildcard characters, no '?').
+func specValidPart(p string) bool {
+	if p == "" {
+		return false
 	}
-	h := &httpReq{name: name, rec: httptest.NewRecorder(), done: make(chan struct{}), conn: fmt.Sprintf("c%d", len(w.cidName))}
+	for i := 0; i < len(p); i++ {
+		c := p[i]
+		if c < 33 || c > 126 || c == '.' || c == '*' || c == '>' || c == '?' {
+			return false
+		}
+	}
+	return true
+}
+
+// httpDo issues one HTTP request (GET, HEAD or POST) against the API.
+func (w *world) httpDo(method, path, rawQuery, body string) {
+	name := fmt.Sprintf("h%d", len(w.https))
+	var stim string
+	switch method {
+	case "POST":
+		rid, action := server.PathToRIDAction(path, rawQuery, "/api/")
+		params := "-"
+		if strings.TrimSpace(body) != "" {
+			params = compactJSON([]byte(body))
+		}
+		stim = "http " + name + " POST " + rid + " " + action + " " + params
+		if !specValidRID(rid, true) || !specValidPart(action) || (len(path) > len("/api/") && path[len(path)-1] == '/') {
+			stim = "http " + name + " POST404"
+		}
+	default:
+		rid := server.PathToRID(path, rawQuery, "/api/")
+		stim = "http " + name + " " + method + " " + rid
+		if !specValidRID(rid, true) || (len(path) > len("/api/") && path[len(path)-1] == '/') {
+			stim = "http " + name + " GET404"
+		}
+	}
+	h := &httpReq{name: name, rec: httptest.NewRecorder(), done: make(chan struct{}), conn: fmt.Sprintf("c%d", len(w.cidName)), method: method}
 	w.https = append(w.https, h)
 	w.apply(stim, func() {
 		url := "http://example.org" + path
 		if rawQuery != "" {
 			url += "?" + rawQuery
 		}
-		req := httptest.NewRequest("GET", url, nil)
+		var rd io.Reader
+		if body != "" {
+			rd = strings.NewReader(body)
+		}
+		req := httptest.NewRequest(method, url, rd)
 		go func() {
 			w.serv.ServeHTTP(h.rec, req)
 			close(h.done)
 		}()
 		// wait until the request has either completed or registered its temporary connection
 		deadline := time.Now().Add(2 * time.Second)
-		n := len(w.cidName)
 		for time.Now().Before(deadline) {
 			select {
 			case <-h.done:
 				return
 			default:
 			}
-			cnt := 0
-			for _, s := range w.mq.subjects() {
-				if strings.HasPrefix(s, "conn.") {
-					cnt++
-				}
-			}
-			_ = n
 			if w.mq.logLen() > 0 {
 				return
 			}
@@ -831,6 +861,14 @@ func (w *world) httpGet(path, rawQuery string) {
 
 // absHTTP renders an HTTP answer: status and canonical body (errors by code only).
 func absHTTP(rec *httptest.ResponseRecorder) string {
+	out := absHTTPBody(rec)
+	if loc := rec.Header().Get("Location"); loc != "" {
+		out += " loc=" + loc
+	}
+	return out
+}
+
+func absHTTPBody(rec *httptest.ResponseRecorder) string {
 	body := strings.TrimSpace(rec.Body.String())
 	if body == "" {
 		return fmt.Sprintf("status=%d body=-", rec.Code)
